@@ -418,7 +418,87 @@ def dict_mutations(R, ir, fmt, wrappers, rng, tier, repro):
                     R.sample({'format': fmt, 'mutation': mname, 'at': repr(p), 'fault': fault})
 
 
+def two_hierarchies_ir():
+    ns = 'urn:vf:c04h'
+    I = lambda: {'prim': 'Integer', 'facets': {}}
+    U = lambda: {'prim': 'Unicode', 'facets': {}}
+    T = lambda name, base, fields: {'name': name, 'ns': ns, 'base': base, 'has_xmldata': False, 'fields': fields}
+    types = [T('A0', None, [['a', I()]]), T('A1', 'A0', [['b', U()]]), T('A2', 'A1', [['c', I()]]),
+             T('B0', None, [['x', U()]]), T('B1', 'B0', [['y', I()]]),
+             T('Hold', None, [['one', {'ref': 'A0'}], ['other', {'ref': 'B0'}], ['many', {'array': {'ref': 'A0'}}], ['others', {'array': {'ref': 'B0'}}]])]
+    M_ = lambda name, args: {'name': name, 'args': args, 'returns': [], 'style': 'wrapped'}
+    return {'uid': 9300, 'tns': ns, 'types': types, 'services': [{'name': 'S', 'methods': [
+        M_('ma', [['p', {'ref': 'A0'}]]), M_('mb', [['q', {'ref': 'B0'}]]), M_('mh', [['h', {'ref': 'Hold'}]]),
+        M_('mab', [['p', {'ref': 'A1'}], ['q', {'ref': 'B0'}]])]}]}
+
+
+def hierarchy_workload(R, fmt, validator, rng, tier, repro):
+    """two unrelated class hierarchies, wrappers kept (the wrapper key is the type marker): legitimate subclass instances
+    first - whatever the protocol instance memoises about markers is memoised - then every marker renamed to every other
+    class, twice over the same protocol instance"""
+    from spyne.server import ServerBase
+    from checks import c02
+    ir = two_hierarchies_ir()
+    conf = refdict.Conf(fmt, False, 'dict', False)
+    B = gen.Built(ir)
+    inp, outp = c02.make_protocols(conf, validator)
+    for p_ in (inp, outp):
+        try:
+            p_.polymorphic = True
+        except Exception:
+            pass
+    app = B.app(inp, outp)
+    server = ServerBase(app)
+    codec = refdict.Codec(ir, conf)
+    type_names = [t['name'] for t in ir['types']]
+    for rnd in range(2):
+        for md in ir['services'][0]['methods']:
+            for k in range(2 if tier == 'quick' else 6):
+                args = [gen.gen_value(rng, ir, t, top=True, subclass_ok=True) for _, t in md['args']]
+                try:
+                    doc = codec.request(md, args)
+                except Exception:
+                    continue
+                (mkey, body), = doc.items()
+                # the legitimate request
+                B.calls[:] = []
+                R.evaluations += 1
+                r = drive.drive_server(server, codec.dumps(doc))
+                R.count('hierarchy_valid_requests')
+                muts = []
+                for p in positions(body):
+                    cur = body
+                    for kk in p:
+                        cur = cur[kk]
+                    if isinstance(cur, dict) and len(cur) == 1 and list(cur)[0] in type_names:
+                        for tn in type_names:
+                            if tn != list(cur)[0]:
+                                muts.append((p, {tn: list(cur.values())[0]}))
+                for p, sval in muts:
+                    try:
+                        mdoc = {mkey: set_path(body, p, sval)}
+                        data = codec.dumps(mdoc)
+                    except Exception:
+                        continue
+                    R.evaluations += 1
+                    B.calls[:] = []
+                    B.returns.clear()
+                    r = drive.drive_server(server, data)
+                    fault = r.error.faultcode if r.error is not None else None
+                    case = dict(repro, family=fmt + '+wrappers', validator=validator, mutation='wrapper_rename', hierarchy=True, round=rnd, at=repr(p),
+                                request=repr(mdoc)[:1500])
+                    out = classify_outcome(R, B, md, r.exc, r.exc_stage, fault, case, 'marker %s at %r' % (list(sval)[0], p))
+                    if out in ('entered_typed', 'rejected'):
+                        R.nontrivial(fmt, validator, 'hierarchy_rename', out, len(p), rnd)
+                        R.cell('%s|hierarchy_rename|%s' % (fmt, out))
+
+
 def run_universe(R, seed, uid, tier):
+    if uid % 8 == 0 or tier != 'quick':
+        rngh = core.rng_for(seed, PROP, 'hier%d' % uid)
+        for fmt in ('json', 'yaml', 'msgpack'):
+            for validator in ('soft', None):
+                hierarchy_workload(R, fmt, validator, rngh, tier, {'seed': seed, 'uid': uid})
     ir = universe(seed, uid)
     rng = core.rng_for(seed, PROP, 'vals%d' % uid)
     repro = {'seed': seed, 'uid': uid}
